@@ -5,6 +5,46 @@ use std::future::Future;
 use std::pin::Pin;
 use std::task::{Context, Poll, Waker};
 
+/// The payload of the harness's planned panics. Raised with `resume_unwind`, so the panic hook (and its
+/// output) is skipped while everything else — unwinding, `thread::panicking()`, drops — is the real thing.
+pub struct Planned;
+
+pub fn planned_panic() -> ! {
+    std::panic::resume_unwind(Box::new(Planned))
+}
+
+/// `catch_unwind` that swallows a planned panic (→ `Err(())`) and re-raises anything else.
+pub fn catch_planned<R>(f: impl FnOnce() -> R) -> Result<R, ()> {
+    match std::panic::catch_unwind(std::panic::AssertUnwindSafe(f)) {
+        Ok(r) => Ok(r),
+        Err(p) if p.is::<Planned>() => Err(()),
+        Err(p) => std::panic::resume_unwind(p),
+    }
+}
+
+/// `catch_unwind` around every poll of `inner`; a planned panic ends it (the poisoned future is dropped).
+pub struct CatchFut<'a> {
+    inner: Option<BoxFut<'a>>,
+}
+
+pub fn catch_fut<'a>(inner: BoxFut<'a>) -> CatchFut<'a> {
+    CatchFut { inner: Some(inner) }
+}
+
+impl<'a> Future for CatchFut<'a> {
+    type Output = ();
+    fn poll(mut self: Pin<&mut Self>, cx: &mut Context<'_>) -> Poll<()> {
+        let Some(inner) = self.inner.as_mut() else { return Poll::Ready(()) };
+        match catch_planned(|| inner.as_mut().poll(cx)) {
+            Ok(Poll::Pending) => Poll::Pending,
+            Ok(Poll::Ready(())) | Err(()) => {
+                self.inner = None;
+                Poll::Ready(())
+            }
+        }
+    }
+}
+
 pub type BoxFut<'a> = Pin<Box<dyn Future<Output = ()> + Send + 'a>>;
 
 pub fn block_on<F: Future>(fut: F) -> F::Output {
@@ -146,14 +186,21 @@ impl<'a, F: Future<Output = ()> + Send> Future for Alternating<'a, F> {
         let elsewhere = this.polls % 2 == 0;
         this.polls += 1;
         if !elsewhere {
-            return this.inner.as_mut().poll(cx);
+            // a planned panic inside ends the task here (the task's own catch), the thread goes on
+            return match catch_planned(|| this.inner.as_mut().poll(cx)) {
+                Ok(p) => p,
+                Err(()) => Poll::Ready(()),
+            };
         }
         let inner = &mut this.inner;
         let hook = this.after_foreign_poll;
         let r = std::thread::scope(|s| {
             s.spawn(|| {
                 vcore::catch(|| {
-                    let ready = inner.as_mut().poll(&mut Context::from_waker(Waker::noop())).is_ready();
+                    let ready = match catch_planned(|| inner.as_mut().poll(&mut Context::from_waker(Waker::noop())).is_ready()) {
+                        Ok(ready) => ready,
+                        Err(()) => true,
+                    };
                     hook();
                     ready
                 })
